@@ -30,6 +30,8 @@ import (
 //	I: like A plus the same column, acronym table {K8s: kube} (the same pattern, another replacement)
 //	J: another workbook (Shop) whose last column is an in-cell struct ({int32 Gold,int32 Gem}Price)
 //	L: GenProto with a custom metasheet name, failing in the first pass (a listed sheet does not exist)
+//	M: like A plus a column Num "int32|{default:"1" range:"0,100"}" with blank cells
+//	N: like B plus the same column with other props ({default:"5" range:"0,1000"}), blank cells and a value 500
 //	K: GenConf on a hand-written proto file whose messages carry no (tableau.field) options at all (a plain string
 //	   field and a plain cross-cell struct field), same package
 func c16Call(name string, w *workspace) string {
@@ -84,6 +86,7 @@ func c16Call(name string, w *workspace) string {
 	lang := "en"
 	metasheet := ""
 	badRef := false
+	numProp, numCells := "", []string(nil)
 	var acronyms map[string]string
 	switch name {
 	case "H":
@@ -105,6 +108,12 @@ func c16Call(name string, w *workspace) string {
 		ids = []string{"5", "6"}
 		lang = "zh"
 		badRef = true
+	case "M":
+		numProp, numCells = `int32|{default:"1" range:"0,100"}`, []string{"", "20"}
+	case "N":
+		kind = [][]string{{"Name", "Alias"}, {"KIND_P", "Beta"}, {"KIND_Q", "Alpha"}}
+		ids = []string{"5", "6"}
+		numProp, numCells = `int32|{default:"5" range:"0,1000"}`, []string{"", "500"}
 	case "C":
 		refer = "ItemConf.NoSuchColumn"
 	case "D":
@@ -121,6 +130,14 @@ func c16Call(name string, w *workspace) string {
 		item[2] = append(item[2], "node")
 		item[3] = append(item[3], "n1")
 		item[4] = append(item[4], "n2")
+	}
+	if numProp != "" {
+		item[0] = append(item[0], "Num")
+		item[1] = append(item[1], numProp)
+		item[2] = append(item[2], "num")
+		item[3] = append(item[3], numCells[0])
+		item[4] = append(item[4], numCells[1])
+		item = append(item, []string{"9", "Alpha", ""})
 	}
 	msName := "@TABLEAU"
 	if metasheet != "" {
@@ -184,7 +201,7 @@ func init() {
 	// e2e.C16.history: every history of ≤ 3 calls from the pool; the LAST call's outcome (files written, error)
 	// in a process that ran the whole history vs. in a fresh process.
 	regStream("e2e.C16.history", func(r *rand.Rand, n int, emit func(string, ...string)) {
-		pool := []string{"A", "B", "C", "D", "E", "F", "G", "H", "I", "J", "K", "L"}
+		pool := []string{"A", "B", "C", "D", "E", "F", "G", "H", "I", "J", "K", "L", "M", "N"}
 		count := 0
 		for _, a := range pool {
 			for _, b := range pool {
